@@ -127,29 +127,35 @@ def run(repo: Repo, rep: Report, tier: str) -> None:
     rep.require(n_ctor >= 4, f"R13.1: only {n_ctor} generator constructions found (floor 4)")
 
     # ---------------------------------------------------------------- R13.3 mock bodies raise
-    tm = repo.func("visit.endpoint.generators.mock_generator:MockGenerator._transform_to_mock")
-    cfg = CFG(tm.node)
+    tm0 = repo.func("visit.endpoint.generators.mock_generator:MockGenerator._transform_to_mock")
+    from sa.report import with_flatten_fallback as _wff133
 
-    def writes(snippet: str):
-        return {n.id for n in cfg.nodes if n.kind == "stmt" and n.ast is not None and not n.copy and any(
-            isinstance(c.func, ast.Attribute) and c.func.attr == "write_line" and c.args and snippet in norm(c.args[0]) for c in calls_in(n.ast))}
+    def _mock_raises(tm, rep) -> None:
+        cfg = CFG(tm.node)
 
-    raise_nodes = writes("raise NotImplementedError(")
-    # the signature loop: `for sig in signature_lines: writer.write_line(sig)`
-    sig_loops = [n.id for n in cfg.nodes if n.kind == "iter" and isinstance(n.stmt, ast.For) and isinstance(n.stmt.target, ast.Name) and any(
-        isinstance(c.func, ast.Attribute) and c.func.attr == "write_line" and c.args and isinstance(c.args[0], ast.Name) and c.args[0].id == n.stmt.target.id
-        for st in n.stmt.body for c in calls_in(st))]
-    rep.require(bool(sig_loops) and bool(raise_nodes), "R13.3: anchors missing in _transform_to_mock (signature loop / raise line)")
-    for sl in sig_loops:
-        done = [m for m, lab in cfg.succ[sl] if lab == "done"]
-        w = None
-        for m in done:
-            w = w or cfg.must_pass(m, raise_nodes, {cfg.exit})
-        sub = f"{tm.module.relpath}:_transform_to_mock body after signature"
-        if w is None:
-            rep.ok("R13.3", sub, "every path from the written signature to the return passes through `raise NotImplementedError(`", tm.loc())
-        else:
-            rep.violation("R13.3", sub, f"{tm.fq}|no-raise|{cfg.describe_path(w)}", f"a mock method can be emitted without the raise ({cfg.describe_path(w)})", tm.loc())
+        def writes(snippet: str):
+            return {n.id for n in cfg.nodes if n.kind == "stmt" and n.ast is not None and not n.copy and any(
+                isinstance(c.func, ast.Attribute) and c.func.attr == "write_line" and c.args and snippet in norm(c.args[0]) for c in calls_in(n.ast))}
+
+        raise_nodes = writes("raise NotImplementedError(")
+        # the signature loop: `for sig in signature_lines: writer.write_line(sig)`
+        sig_loops = [n.id for n in cfg.nodes if n.kind == "iter" and isinstance(n.stmt, ast.For) and isinstance(n.stmt.target, ast.Name) and any(
+            isinstance(c.func, ast.Attribute) and c.func.attr == "write_line" and c.args and isinstance(c.args[0], ast.Name) and c.args[0].id == n.stmt.target.id
+            for st in n.stmt.body for c in calls_in(st))]
+        rep.require(bool(sig_loops) and bool(raise_nodes), "R13.3: anchors missing in _transform_to_mock (signature loop / raise line)")
+        for sl in sig_loops:
+            done = [m for m, lab in cfg.succ[sl] if lab == "done"]
+            w = None
+            for m in done:
+                w = w or cfg.must_pass(m, raise_nodes, {cfg.exit})
+            sub = f"{tm.module.relpath}:_transform_to_mock body after signature"
+            if w is None:
+                rep.ok("R13.3", sub, "every path from the written signature to the return passes through `raise NotImplementedError(`", tm.loc())
+            else:
+                rep.violation("R13.3", sub, f"{tm.fq}|no-raise|{cfg.describe_path(w)}", f"a mock method can be emitted without the raise ({cfg.describe_path(w)})", tm.loc())
+
+    _wff133(rep, tm0, _mock_raises)  # signature collection / body writing may be helpers of the generator: written out
+    tm = tm0
     # nothing executable is emitted before the raise except the docstring
     # ---------------------------------------------------------------- R13.5 nature decision
     from sa.flatten import flatten as _fl13
